@@ -3,7 +3,7 @@
 // by structure, terminates on recursive types and is preserved by print+parse).
 //
 // (S) spec/TypesEq.tla: TLC checks the laws of the reference identity TypeEq.
-// (G) TLC generates type terms over three universes; (T) the real Equal is
+// (G) TLC generates type terms over four universes; (T) the real Equal is
 // recorded on all ordered pairs (several object-sharing views, and against the
 // types obtained by printing and re-parsing) and spec/TypesTrace.tla judges the
 // recorded matrices. The real code runs in a child process so that a stack
@@ -760,7 +760,7 @@ func Run(tier, replay string) {
 	rep.Exhaustive = false
 	rep.Assumptions = []string{
 		"TLC evaluates TypeEq on the deserialised recording correctly; JSON transport of terms is faithful (tyutil)",
-		"the term sets are the ones Gen of TypesEq.tla defines (leaves, one-level constructions, deep seeds and their one-attribute variants) over three universes, plus seeded random terms with one-attribute twins; other types are not exercised",
+		"the term sets are the ones Gen of TypesEq.tla defines (leaves, one-level constructions, deep seeds and their one-attribute variants) over four universes, plus seeded random terms with one-attribute twins; other types are not exercised",
 		"llvm-as 14 accepted every recorded term as a type (WellFormed of Types.tla agrees with LLVM on the generated set)",
 	}
 	rep.Finish()
